@@ -235,7 +235,7 @@ impl Stats {
             if let Some((_, c)) = s.builder_rejected {
                 add(&mut self.rejected_by_class, c.name(), 1);
             }
-            let planned = ispec.plan.first().is_some();
+            let planned = ispec.plan != crate::spec::FaultPlan::None;
             any_plan |= planned;
             if planned && s.built {
                 if s.fired > 0 {
